@@ -2681,7 +2681,10 @@ func (s *swamp) DeleteTreasure(key string, shadowDelete bool) error {
 
 	// delete the treasure from the beaconKey
 	// delete the treasure from the swamp and from the chroniclerInterface too
-	s.deleteHandler(key, shadowDelete)
+	if s.deleteHandler(key, shadowDelete) == nil {
+		// somebody else deleted it between the test above and the record guard
+		return errors.New(ErrorTreasureDoesNotExists)
+	}
 
 	// destroy the swamp if there is no treasure in it
 	if s.beaconKey.Count() == 0 {
